@@ -79,7 +79,8 @@ func c17Eval(c c17Case) (ok bool, sig, detail string) {
 			for i, n := range c.Ns {
 				desc := c.Descs[i%len(c.Descs)]
 				data := c17Residues(n, i)
-				want = append(want, fastaRec{desc, string(data)})
+				// "description on one line": line breaks in a description are written as blanks
+				want = append(want, fastaRec{strings.ReplaceAll(desc, "\n", " "), string(data)})
 				var seq gts.Sequence = seqio.Fasta{Desc: desc, Data: cloneBytes(data)}
 				if c.Basic {
 					seq = gts.New(desc, nil, cloneBytes(data))
@@ -145,6 +146,71 @@ func c17Eval(c c17Case) (ok bool, sig, detail string) {
 					s = "crlf-residues-keep-cr"
 				}
 				return false, s, what + fmt.Sprintf(": record %d has %d residues read, %d written", i, len(got[i].data), len(want[i].data))
+			}
+		}
+		return true, "", ""
+	case "convertgen":
+		// a generated GenBank record whose DEFINITION has c.S line breaks (built through the API, and the
+		// same record after a write/read cycle, where the reader joins the continuation lines itself)
+		lines := []string{}
+		for i := 0; i <= c.S; i++ {
+			lines = append(lines, fmt.Sprintf("definition line %d of the record", i+1))
+		}
+		def := strings.Join(lines, "\n")
+		n := 75
+		if len(c.Ns) > 0 {
+			n = c.Ns[0]
+		}
+		data := c17Residues(n, 3)
+		for i := range data {
+			data[i] = "acgtnACGTN"[int(data[i])%10]
+		}
+		ver := "AB000001.1"
+		if c.E == 1 {
+			ver = ""
+		}
+		gb := seqio.GenBank{
+			Fields: seqio.GenBankFields{LocusName: "GEN", Molecule: gts.DNA, Topology: gts.Linear, Division: "UNA",
+				Date: seqio.Date{Year: 2001, Month: 2, Day: 3}, Definition: def, Accession: "AB000001", Version: ver},
+			Table:  gts.FeatureSlice{{Key: "source", Loc: gts.Range(0, maxInt(n, 1)), Props: gts.Props{{"mol_type", "genomic DNA"}}}},
+			Origin: seqio.NewOrigin(cloneBytes(data)),
+		}
+		var variants []gts.Sequence
+		variants = append(variants, gb)
+		{
+			var buf bytes.Buffer
+			if p, msg := engine.Safely(func() { seqio.NewWriter(&buf, seqio.GenBankFile).WriteSeq(gb) }); p {
+				return false, "panic", "GenBank writer panics: " + msg
+			}
+			seqioMu.Lock()
+			sc := seqio.NewAutoScanner(bytes.NewReader(buf.Bytes()))
+			for sc.Scan() {
+				variants = append(variants, sc.Value())
+			}
+			seqioMu.Unlock()
+			if len(variants) != 2 {
+				return false, "convert-read", fmt.Sprintf("generated record with a %d-line definition is not read back by the GenBank reader", c.S+1)
+			}
+		}
+		for vi, seq := range variants {
+			var buf bytes.Buffer
+			var err error
+			if p, msg := engine.Safely(func() { _, err = seqio.NewWriter(&buf, seqio.FastaFile).WriteSeq(seq) }); p {
+				return false, "panic", "FASTA writer panics: " + msg
+			}
+			if err != nil {
+				return false, "write-error", err.Error()
+			}
+			got, errText, pan := scanFasta(buf.Bytes())
+			if pan != "" || errText != "" || len(got) != 1 {
+				return false, "convert-read", fmt.Sprintf("variant %d, %d-line definition: converted record unreadable: %s %s (%d records)", vi, c.S+1, pan, errText, len(got))
+			}
+			wantDesc := strings.ReplaceAll(ver+" "+def, "\n", " ")
+			if got[0].desc != wantDesc {
+				return false, "convert-description", fmt.Sprintf("variant %d, %d-line definition: description %q want %q", vi, c.S+1, got[0].desc, wantDesc)
+			}
+			if got[0].data != string(data) {
+				return false, "convert-residues", fmt.Sprintf("variant %d, %d-line definition: %d residues in FASTA, %d in the record", vi, c.S+1, len(got[0].data), len(data))
 			}
 		}
 		return true, "", ""
@@ -215,7 +281,7 @@ func init() {
 			if r.Tier == "thorough" {
 				maxN = 1500
 			}
-			r.Rule = fmt.Sprintf("every residue count 0..%d (all remainders mod 70) over printable bytes without '>', every description of <=3 symbols over {a,space,>,|,.}, streams of 1..5 records over a length menu incl. 0/69/70/71/140, LF and CRLF renderings, written as seqio.Fasta and as BasicSequence; every GenBank corpus record and a grid of slices converted to FASTA; distinct key = the case; non-trivial = n>=1", maxN)
+			r.Rule = fmt.Sprintf("every residue count 0..%d (all remainders mod 70) over printable bytes without '>', every description of <=3 symbols over {a,space,>,|,.}, streams of 1..5 records over a length menu incl. 0/69/70/71/140, LF and CRLF renderings, written as seqio.Fasta and as BasicSequence; descriptions with line breaks (written on one line), the size ladder up to 150000 (quick) / 3000000 (thorough) residues, streams whose second header starts at every offset around the multiples of 4096 up to 65536; every GenBank corpus record and a grid of slices, and generated records with DEFINITIONs of 1..6 lines, converted to FASTA; distinct key = the case; non-trivial = n>=1", maxN)
 			complete := true
 			eval := func(c c17Case, size int, nontriv bool) {
 				r.Evals.Add(1)
@@ -258,6 +324,60 @@ func init() {
 					eval(c17Case{Kind: "roundtrip", Ns: []int{5, 0, 71}, Descs: []string{d, "k"}, CRLF: crlf}, 500+len(d), true)
 				}
 			}
+			// descriptions with line breaks are written on one line; residues and record framing must survive
+			for _, d := range []string{"a\nb", "a\nb\nc", "one\ntwo\nthree\nfour", "\n", "x\n", "\nx", "a\n\nb"} {
+				for _, crlf := range []bool{false, true} {
+					eval(c17Case{Kind: "roundtrip", Ns: []int{5, 0, 71}, Descs: []string{d, "k"}, CRLF: crlf}, 600+len(d), true)
+					eval(c17Case{Kind: "roundtrip", Ns: []int{71}, Descs: []string{d}, CRLF: crlf, Basic: true}, 600+len(d), true)
+				}
+			}
+			// generated GenBank records with DEFINITIONs of 1..6 lines (with and without a VERSION) converted to FASTA
+			for nl := 0; nl <= 5; nl++ {
+				for _, n := range []int{0, 1, 70, 75, 141} {
+					for nover := 0; nover <= 1; nover++ {
+						eval(c17Case{Kind: "convertgen", S: nl, E: nover, Ns: []int{n}}, 2500+nl, true)
+					}
+				}
+			}
+			// the size ladder for single records (chunk sizes of the reader, powers of two and ten, multiples of the line width)
+			maxLadder := 150000
+			if r.Tier == "thorough" {
+				maxLadder = 3000000
+			}
+			for _, n := range engine.Ladder(0, maxLadder, 70, 4096) {
+				if n <= maxN {
+					continue
+				}
+				for _, crlf := range []bool{false, true} {
+					eval(c17Case{Kind: "roundtrip", Ns: []int{n}, Descs: []string{"d e"}, CRLF: crlf}, 1500, true)
+				}
+				r.States.Add(1)
+			}
+			r.Extra["ladder_max_length"] = maxLadder
+			// record framing against the reader's read-block size: two- and three-record streams in which the
+			// first record's length sweeps a contiguous range, so that the following header starts at every offset
+			// around each multiple of 4096 (every alignment of "\n>" with a block boundary)
+			for _, centre := range []int{4096, 8192, 12288, 16384, 32768, 65536} {
+				lo, hi := centre*70/71-90, centre*70/71+30
+				if r.Tier != "thorough" && centre > 16384 {
+					lo, hi = centre*70/71-75, centre*70/71+5
+				}
+				for n := lo; n <= hi; n++ {
+					for _, crlf := range []bool{false, true} {
+						if crlf && r.Tier != "thorough" && centre > 8192 {
+							continue
+						}
+						nn := n
+						if crlf {
+							nn = n * 71 / 72 // CRLF lines are 72 bytes
+						}
+						eval(c17Case{Kind: "roundtrip", Ns: []int{nn, 3, 71}, Descs: []string{"d", "e"}, CRLF: crlf}, 1800, true)
+					}
+				}
+			}
+			if r.Expired() {
+				complete = false
+			}
 			// streams of 1..5 records over a length menu
 			menu := []int{0, 1, 69, 70, 71, 140}
 			var rec func(cur []int)
@@ -291,7 +411,7 @@ func init() {
 					}
 				}
 			}
-			r.Assumptions = []string{"descriptions contain no line break; residues are printable and contain no '>'"}
+			r.Assumptions = []string{"a description with line breaks reads back with each line break replaced by a blank; residues are printable and contain no '>'"}
 			return complete
 		},
 		Replay: func(raw json.RawMessage) (bool, string, string) {
